@@ -290,3 +290,14 @@ UNIT = {
     ],
     "spec": SPEC,
 }
+
+
+# ---- as-found variant (VERIF_ASFOUND=1): the arity test of the pinned commit sits before the loop ----
+import copy as _copy
+UNIT_ASFOUND = _copy.deepcopy(UNIT)
+for _it in UNIT_ASFOUND["items"]:
+    _ms = _it.get("methods") or {}
+    if "apply_procedure" in _ms:
+        _ms["apply_procedure"].pop("inserts", None)
+        _ms["apply_procedure"]["loops"] = {1: {"expect_kw": "loop", "invariant": """            invariant
+                current_procedure is None ==> args == args0 && arity_ok(params_of(*initial_procedure), args0.spec_len()),"""}}
